@@ -78,3 +78,192 @@ Print Assumptions C04_sdes_count_exceeds.
 Theorem C04_sdes_count_exceeds_any_length : forall b, (len b - 4 + 3) / 8 < cnt b -> SDES_unmarshal b = Err.
 Proof. exact SDES_count_exceeds_rejected. Qed.
 Print Assumptions C04_sdes_count_exceeds_any_length.
+
+(* BEGIN source-translation (generated by tools/mksourceprops.py; do not edit by hand) *)
+(* Unmarshal of each type, as translated from the Go source text on this run, is the model function the theorems above are about (zero-valued receiver; the _gen/_any forms say what a receiver that already holds data contributes).
+   Gen/Funcs.v (module GoSrc) is written by srcgen/trans.go from /repo on every run; Lib/GoSem.v gives the meaning of its primitives. *)
+From RTCP Require Import Lib.Base Lib.GoSem Gen.Consts Gen.Funcs Model.Header Model.Reports Model.Sdes Model.ByeApp Model.Feedback Model.Twcc Model.Ccfb Model.Packet Proofs.SourceEquiv Proofs.SrcConv Proofs.SourceByeApp Proofs.SourceCcfb Proofs.SourceFeedback1 Proofs.SourceFeedback2 Proofs.SourceRR Proofs.SourceSR Proofs.SourceSdes.
+Module C04_SourceByeApp.
+Import Proofs.SourceByeApp.
+Local Open Scope Z_scope.
+Local Open Scope N_scope.
+Theorem C04_source_Goodbye_Unmarshal_gen : forall g0 b, GoSrc.Goodbye_Reason g0 = [] ->
+  GoSrc.Goodbye_Unmarshal g0 b = res_map src_bye (BYE_unmarshal b).
+Proof. exact src_Goodbye_Unmarshal_gen. Qed.
+Print Assumptions C04_source_Goodbye_Unmarshal_gen.
+Theorem C04_source_Goodbye_Unmarshal : forall b,
+  GoSrc.Goodbye_Unmarshal GoSrc.zero_Goodbye b = res_map src_bye (BYE_unmarshal b).
+Proof. exact src_Goodbye_Unmarshal. Qed.
+Print Assumptions C04_source_Goodbye_Unmarshal.
+Theorem C04_source_ApplicationDefined_Unmarshal_gen : forall a0 b,
+  GoSrc.ApplicationDefined_Unmarshal a0 b = res_map src_app (APP_unmarshal b).
+Proof. exact src_ApplicationDefined_Unmarshal_gen. Qed.
+Print Assumptions C04_source_ApplicationDefined_Unmarshal_gen.
+Theorem C04_source_ApplicationDefined_Unmarshal : forall b,
+  GoSrc.ApplicationDefined_Unmarshal GoSrc.zero_ApplicationDefined b = res_map src_app (APP_unmarshal b).
+Proof. exact src_ApplicationDefined_Unmarshal. Qed.
+Print Assumptions C04_source_ApplicationDefined_Unmarshal.
+End C04_SourceByeApp.
+Module C04_SourceCcfb.
+Import Proofs.SourceCcfb.
+Local Open Scope Z_scope.
+Theorem C04_source_CCFeedbackReportBlock_unmarshal_gen : forall b0 raw, GoSrc.CCFeedbackReportBlock_MetricBlocks b0 = [] ->
+  GoSrc.CCFeedbackReportBlock_unmarshal b0 raw = res_map src_ccblock (CCBlock_unmarshal raw).
+Proof. exact src_CCFeedbackReportBlock_unmarshal_gen. Qed.
+Print Assumptions C04_source_CCFeedbackReportBlock_unmarshal_gen.
+Theorem C04_source_CCFeedbackReportBlock_unmarshal : forall raw,
+  GoSrc.CCFeedbackReportBlock_unmarshal GoSrc.zero_CCFeedbackReportBlock raw = res_map src_ccblock (CCBlock_unmarshal raw).
+Proof. exact src_CCFeedbackReportBlock_unmarshal. Qed.
+Print Assumptions C04_source_CCFeedbackReportBlock_unmarshal.
+Theorem C04_source_CCFeedbackReport_Unmarshal_gen : forall b0 raw,
+  GoSrc.CCFeedbackReport_Unmarshal b0 raw = res_map src_ccfb (CCFB_unmarshal raw).
+Proof. exact src_CCFeedbackReport_Unmarshal_gen. Qed.
+Print Assumptions C04_source_CCFeedbackReport_Unmarshal_gen.
+Theorem C04_source_CCFeedbackReport_Unmarshal : forall raw,
+  GoSrc.CCFeedbackReport_Unmarshal GoSrc.zero_CCFeedbackReport raw = res_map src_ccfb (CCFB_unmarshal raw).
+Proof. exact src_CCFeedbackReport_Unmarshal. Qed.
+Print Assumptions C04_source_CCFeedbackReport_Unmarshal.
+Theorem C04_source_StatusVectorChunk_Unmarshal : forall b,
+  GoSrc.StatusVectorChunk_Unmarshal GoSrc.zero_StatusVectorChunk b = res_map src_svc (SVC_unmarshal b).
+Proof. exact src_StatusVectorChunk_Unmarshal. Qed.
+Print Assumptions C04_source_StatusVectorChunk_Unmarshal.
+Theorem C04_source_StatusVectorChunk_Unmarshal_gen : forall r0 b,
+  GoSrc.StatusVectorChunk_Unmarshal r0 b =
+  res_map (fun c => svc_prepend (GoSrc.StatusVectorChunk_SymbolList r0) (src_svc c)) (SVC_unmarshal b).
+Proof. exact src_StatusVectorChunk_Unmarshal_gen. Qed.
+Print Assumptions C04_source_StatusVectorChunk_Unmarshal_gen.
+End C04_SourceCcfb.
+Module C04_SourceFeedback1.
+Import Proofs.SourceFeedback1.
+Local Open Scope Z_scope.
+Theorem C04_source_PictureLossIndication_Unmarshal_gen : forall p0 b,
+  GoSrc.PictureLossIndication_Unmarshal p0 b = res_map src_pli (PLI_unmarshal b).
+Proof. exact src_PictureLossIndication_Unmarshal_gen. Qed.
+Print Assumptions C04_source_PictureLossIndication_Unmarshal_gen.
+Theorem C04_source_PictureLossIndication_Unmarshal : forall b,
+  GoSrc.PictureLossIndication_Unmarshal GoSrc.zero_PictureLossIndication b = res_map src_pli (PLI_unmarshal b).
+Proof. exact src_PictureLossIndication_Unmarshal. Qed.
+Print Assumptions C04_source_PictureLossIndication_Unmarshal.
+Theorem C04_source_RapidResynchronizationRequest_Unmarshal_gen : forall p0 b,
+  GoSrc.RapidResynchronizationRequest_Unmarshal p0 b = res_map src_rrr (RRR_unmarshal b).
+Proof. exact src_RapidResynchronizationRequest_Unmarshal_gen. Qed.
+Print Assumptions C04_source_RapidResynchronizationRequest_Unmarshal_gen.
+Theorem C04_source_RapidResynchronizationRequest_Unmarshal : forall b,
+  GoSrc.RapidResynchronizationRequest_Unmarshal GoSrc.zero_RapidResynchronizationRequest b = res_map src_rrr (RRR_unmarshal b).
+Proof. exact src_RapidResynchronizationRequest_Unmarshal. Qed.
+Print Assumptions C04_source_RapidResynchronizationRequest_Unmarshal.
+Theorem C04_source_TransportLayerNack_Unmarshal_gen : forall p0 b,
+  GoSrc.TransportLayerNack_Unmarshal p0 b = res_map (src_nack_onto p0) (NACK_unmarshal b).
+Proof. exact src_TransportLayerNack_Unmarshal_gen. Qed.
+Print Assumptions C04_source_TransportLayerNack_Unmarshal_gen.
+Theorem C04_source_TransportLayerNack_Unmarshal : forall b,
+  GoSrc.TransportLayerNack_Unmarshal GoSrc.zero_TransportLayerNack b = res_map src_nack (NACK_unmarshal b).
+Proof. exact src_TransportLayerNack_Unmarshal. Qed.
+Print Assumptions C04_source_TransportLayerNack_Unmarshal.
+End C04_SourceFeedback1.
+Module C04_SourceFeedback2.
+Import Proofs.SourceFeedback2.
+Local Open Scope Z_scope.
+Theorem C04_source_FullIntraRequest_Unmarshal_gen : forall p0 b,
+  GoSrc.FullIntraRequest_Unmarshal p0 b = res_map (fir_recv p0) (FIR_unmarshal b).
+Proof. exact src_FullIntraRequest_Unmarshal_gen. Qed.
+Print Assumptions C04_source_FullIntraRequest_Unmarshal_gen.
+Theorem C04_source_FullIntraRequest_Unmarshal : forall b,
+  GoSrc.FullIntraRequest_Unmarshal GoSrc.zero_FullIntraRequest b = res_map src_fir (FIR_unmarshal b).
+Proof. exact src_FullIntraRequest_Unmarshal. Qed.
+Print Assumptions C04_source_FullIntraRequest_Unmarshal.
+Theorem C04_source_SliceLossIndication_Unmarshal_gen : forall p0 b,
+  GoSrc.SliceLossIndication_Unmarshal p0 b = res_map (sli_recv p0) (SLI_unmarshal b).
+Proof. exact src_SliceLossIndication_Unmarshal_gen. Qed.
+Print Assumptions C04_source_SliceLossIndication_Unmarshal_gen.
+Theorem C04_source_SliceLossIndication_Unmarshal : forall b,
+  GoSrc.SliceLossIndication_Unmarshal GoSrc.zero_SliceLossIndication b = res_map src_sli (SLI_unmarshal b).
+Proof. exact src_SliceLossIndication_Unmarshal. Qed.
+Print Assumptions C04_source_SliceLossIndication_Unmarshal.
+End C04_SourceFeedback2.
+Module C04_SourceRR.
+Import Proofs.SourceRR.
+Local Open Scope Z_scope.
+Theorem C04_source_ReceiverReport_Unmarshal_any : forall r0 b,
+  GoSrc.ReceiverReport_Unmarshal r0 b =
+  if (len b <? 8)%N then Err else
+  let* h := Header_unmarshal b in
+  if negb (h_type h =? c_TypeReceiverReport)%N then Err else
+  let* ssrc := get_be_at 4 b c_rrSSRCOffset in
+  let* rs := rr_reports_loop (N.to_nat (h_count h) - length (GoSrc.ReceiverReport_Reports r0)) b c_rrReportOffset in
+  let n := (nlen (GoSrc.ReceiverReport_Reports r0) + nlen rs)%N in
+  let* ext := slice_from b (c_rrReportOffset + n * c_receptionReportLength) in
+  if negb (u8 n =? h_count h)%N then Err else
+  Ok (GoSrc.mkReceiverReport (Z.of_N ssrc) (GoSrc.ReceiverReport_Reports r0 ++ map src_rrep rs) ext).
+Proof. exact src_ReceiverReport_Unmarshal_any. Qed.
+Print Assumptions C04_source_ReceiverReport_Unmarshal_any.
+Theorem C04_source_ReceiverReport_Unmarshal_gen : forall r0 b, GoSrc.ReceiverReport_Reports r0 = [] ->
+  GoSrc.ReceiverReport_Unmarshal r0 b = res_map src_rr (RR_unmarshal b).
+Proof. exact src_ReceiverReport_Unmarshal_gen. Qed.
+Print Assumptions C04_source_ReceiverReport_Unmarshal_gen.
+Theorem C04_source_ReceiverReport_Unmarshal : forall b,
+  GoSrc.ReceiverReport_Unmarshal GoSrc.zero_ReceiverReport b = res_map src_rr (RR_unmarshal b).
+Proof. exact src_ReceiverReport_Unmarshal. Qed.
+Print Assumptions C04_source_ReceiverReport_Unmarshal.
+End C04_SourceRR.
+Module C04_SourceSR.
+Import Proofs.SourceSR.
+Local Open Scope Z_scope.
+Theorem C04_source_SenderReport_Unmarshal_any : forall r0 b,
+  GoSrc.SenderReport_Unmarshal r0 b
+  = SR_unmarshal_onto (GoSrc.SenderReport_Reports r0) (GoSrc.SenderReport_ProfileExtensions r0) b.
+Proof. exact src_SenderReport_Unmarshal_any. Qed.
+Print Assumptions C04_source_SenderReport_Unmarshal_any.
+Theorem C04_source_SenderReport_Unmarshal_gen : forall r0 b,
+  GoSrc.SenderReport_Reports r0 = [] -> GoSrc.SenderReport_ProfileExtensions r0 = [] ->
+  GoSrc.SenderReport_Unmarshal r0 b = res_map src_sr (SR_unmarshal b).
+Proof. exact src_SenderReport_Unmarshal_gen. Qed.
+Print Assumptions C04_source_SenderReport_Unmarshal_gen.
+Theorem C04_source_SenderReport_Unmarshal : forall b,
+  GoSrc.SenderReport_Unmarshal GoSrc.zero_SenderReport b = res_map src_sr (SR_unmarshal b).
+Proof. exact src_SenderReport_Unmarshal. Qed.
+Print Assumptions C04_source_SenderReport_Unmarshal.
+End C04_SourceSR.
+Module C04_SourceSdes.
+Import Proofs.SourceSdes.
+Local Open Scope Z_scope.
+Theorem C04_source_RawPacket_Unmarshal_gen : forall r0 b, GoSrc.RawPacket_Unmarshal r0 b = Raw_unmarshal b.
+Proof. exact src_RawPacket_Unmarshal_gen. Qed.
+Print Assumptions C04_source_RawPacket_Unmarshal_gen.
+Theorem C04_source_RawPacket_Unmarshal : forall b, GoSrc.RawPacket_Unmarshal [] b = Raw_unmarshal b.
+Proof. exact src_RawPacket_Unmarshal. Qed.
+Print Assumptions C04_source_RawPacket_Unmarshal.
+Theorem C04_source_SourceDescriptionItem_Unmarshal_gen : forall s0 b,
+  GoSrc.SourceDescriptionItem_Unmarshal s0 b = res_map src_item (SItem_unmarshal b).
+Proof. exact src_SourceDescriptionItem_Unmarshal_gen. Qed.
+Print Assumptions C04_source_SourceDescriptionItem_Unmarshal_gen.
+Theorem C04_source_SourceDescriptionItem_Unmarshal : forall b,
+  GoSrc.SourceDescriptionItem_Unmarshal GoSrc.zero_SourceDescriptionItem b = res_map src_item (SItem_unmarshal b).
+Proof. exact src_SourceDescriptionItem_Unmarshal. Qed.
+Print Assumptions C04_source_SourceDescriptionItem_Unmarshal.
+Theorem C04_source_SourceDescriptionChunk_Unmarshal_any : forall s0 b,
+  GoSrc.SourceDescriptionChunk_Unmarshal s0 b = res_map (src_chunk_onto s0) (SChunk_unmarshal b).
+Proof. exact src_SourceDescriptionChunk_Unmarshal_any. Qed.
+Print Assumptions C04_source_SourceDescriptionChunk_Unmarshal_any.
+Theorem C04_source_SourceDescriptionChunk_Unmarshal_gen : forall s0 b, GoSrc.SourceDescriptionChunk_Items s0 = [] ->
+  GoSrc.SourceDescriptionChunk_Unmarshal s0 b = res_map src_chunk (SChunk_unmarshal b).
+Proof. exact src_SourceDescriptionChunk_Unmarshal_gen. Qed.
+Print Assumptions C04_source_SourceDescriptionChunk_Unmarshal_gen.
+Theorem C04_source_SourceDescriptionChunk_Unmarshal : forall b,
+  GoSrc.SourceDescriptionChunk_Unmarshal GoSrc.zero_SourceDescriptionChunk b = res_map src_chunk (SChunk_unmarshal b).
+Proof. exact src_SourceDescriptionChunk_Unmarshal. Qed.
+Print Assumptions C04_source_SourceDescriptionChunk_Unmarshal.
+Theorem C04_source_SourceDescription_Unmarshal_any : forall s0 b,
+  GoSrc.SourceDescription_Unmarshal s0 b = SDES_unmarshal_onto (GoSrc.SourceDescription_Chunks s0) b.
+Proof. exact src_SourceDescription_Unmarshal_any. Qed.
+Print Assumptions C04_source_SourceDescription_Unmarshal_any.
+Theorem C04_source_SourceDescription_Unmarshal_gen : forall s0 b, GoSrc.SourceDescription_Chunks s0 = [] ->
+  GoSrc.SourceDescription_Unmarshal s0 b = res_map src_sdes (SDES_unmarshal b).
+Proof. exact src_SourceDescription_Unmarshal_gen. Qed.
+Print Assumptions C04_source_SourceDescription_Unmarshal_gen.
+Theorem C04_source_SourceDescription_Unmarshal : forall b,
+  GoSrc.SourceDescription_Unmarshal GoSrc.zero_SourceDescription b = res_map src_sdes (SDES_unmarshal b).
+Proof. exact src_SourceDescription_Unmarshal. Qed.
+Print Assumptions C04_source_SourceDescription_Unmarshal.
+End C04_SourceSdes.
+(* END source-translation *)
